@@ -627,7 +627,7 @@ func Universe(tier string) []*Decl {
 		}
 	}
 	for _, b := range basesG {
-		for _, pre := range []string{"ctx-injector", "pkg-ident-ctx"} {
+		for _, pre := range []string{"ctx-injector", "pkg-ident-ctx", "async-injector"} {
 			c := b.Clone()
 			c.Prelude = pre
 			add(c, pre)
